@@ -57,7 +57,7 @@ BlankCopyA  == On /\ Do([k |-> "blank_copy"])
 SetPlainA   == \E s \in {<<>>, <<a>>, <<b, sp, wd, a, a>>} : On /\ Do([k |-> "set_plain", str |-> s])
 TruncateA   == \E w \in {1, 2, 3}, o \in {"crop", "ellipsis", "ignore"}, p \in BOOLEAN :
                    On /\ Do([k |-> "truncate", w |-> w, ov |-> o, pad |-> p])
-RightCropA  == \E n \in {0, 1, 9} : On /\ Do([k |-> "right_crop", n |-> n])
+RightCropA  == \E n \in {0, 1, 9, 0 - 2} : On /\ Do([k |-> "right_crop", n |-> n])
 SetLengthA  == \E n \in {0, 2, 6} : On /\ Do([k |-> "set_length", n |-> n])
 ExpandTabsA == \E n \in {4, 8} : On /\ Do([k |-> "expand_tabs", n |-> n])
 CopyA       == On /\ Do([k |-> "copy"])
